@@ -355,6 +355,10 @@ func (c *vfCfg) Args() []string {
 		// the (deprecated, still shipped) Azure AD provider against the FakeIdP; v1 endpoints: no Graph groups
 		// (endpoints and keys come from discovery; the profile URL is the discovered userinfo endpoint)
 		a = append(a, "--provider=azure", "--oidc-issuer-url=http://"+vfIdpHost)
+	case "logingov":
+		// login.gov flavour: private_key_jwt at the token endpoint (the driver adds --jwt-key), the key set fetched at every login
+		a = append(a, "--provider=login.gov", "--login-url=http://"+vfIdpHost+"/authorize", "--redeem-url=http://"+vfIdpHost+"/token",
+			"--profile-url=http://"+vfIdpHost+"/userinfo", "--validate-url=http://"+vfIdpHost+"/userinfo", "--pubjwk-url=http://"+vfIdpHost+"/jwks")
 	case "gitlab":
 		// the GitLab flavour of the OIDC provider: discovery as usual, identity from <login host>/oauth/userinfo
 		a = append(a, "--provider=gitlab", "--oidc-issuer-url=http://"+vfIdpHost, fmt.Sprintf("--insecure-oidc-skip-nonce=%v", c.SkipNonce))
